@@ -314,6 +314,27 @@ static void op_query(Run &r, Q &q, Tape &t)
             ++i;
         }
         VP_CHECK(r.cx, i == n, "que:foreach", "a_que_foreach yields %zu of %zu", i, n);
+        a_que_foreach_reverse(uint8_t, *, it, q.q)
+        {
+            VP_CHECK(r.cx, i > 0 && (void *)it == q.m[i - 1].addr, "que:foreach_reverse", "a_que_foreach_reverse position %zu of %zu is wrong", i, n);
+            --i;
+        }
+        VP_CHECK(r.cx, i == 0, "que:foreach_reverse", "a_que_foreach_reverse stops %zu elements early", i);
+        {
+            uint8_t *it, *at;
+            A_QUE_FOREACH(uint8_t *, it, at, q.q)
+            {
+                VP_CHECK(r.cx, i < n && (void *)it == q.m[i].addr, "que:FOREACH", "A_QUE_FOREACH position %zu of %zu is wrong", i, n);
+                ++i;
+            }
+            VP_CHECK(r.cx, i == n, "que:FOREACH", "A_QUE_FOREACH yields %zu of %zu", i, n);
+            A_QUE_FOREACH_REVERSE(uint8_t *, it, at, q.q)
+            {
+                VP_CHECK(r.cx, i > 0 && (void *)it == q.m[i - 1].addr, "que:FOREACH_REVERSE", "A_QUE_FOREACH_REVERSE position is wrong");
+                --i;
+            }
+            VP_CHECK(r.cx, i == 0, "que:FOREACH_REVERSE", "A_QUE_FOREACH_REVERSE stops early");
+        }
         r.cx.label(L_FOREACH);
     }
 }
